@@ -358,22 +358,19 @@ impl From<Span> for Vec<Contacts> {
             .into_iter()
             .map(|frag| Contacts::new(frag))
             .collect();
-        // with the hooks on, the grouping happens here and is logged; the call below then
-        // finds a fixpoint and returns it unchanged
+        // with the hooks on, the same grouping is computed on a copy and logged; the pipeline's
+        // own call below is untouched (one call on the original input, as without the hooks)
         #[cfg(feature = "verif-trace")]
-        let contacts = {
-            let grouped = Contacts::merge_recursive(contacts);
-            crate::verif::emit("contacts", || {
-                format!(
-                    "\"groups\":{}",
-                    crate::verif::json_list(
-                        grouped.iter(),
-                        crate::verif::json_contacts
-                    )
+        crate::verif::emit("contacts", || {
+            let grouped = Contacts::merge_recursive(contacts.clone());
+            format!(
+                "\"groups\":{}",
+                crate::verif::json_list(
+                    grouped.iter(),
+                    crate::verif::json_contacts
                 )
-            });
-            grouped
-        };
+            )
+        });
         Contacts::merge_recursive(contacts)
     }
 }
